@@ -89,7 +89,7 @@ def generate(rng, tier):
             elif r < 0.8:
                 ops.append('d')
             elif layer == 'mp':
-                ops.append(rng.choice(['c', 'rs', 'rf']) + str(rng.randrange(0, max(1, n) + (1 if rng.random() < 0.1 else 0))))
+                ops.append(rng.choice(['c', 'rs', 'rf']) + str(min(3, rng.randrange(0, max(1, n) + (1 if rng.random() < 0.1 else 0)))))
             else:
                 ops.append(rng.choice(['fm', 'sm', 'e']))
         out.append(_case(f'fan {layer} {",".join(kids) or "-"} ; ' + ' ; '.join(ops), 'sequential', layer))
